@@ -27,6 +27,10 @@ DEFS = [(r.type_id, (SH.shadow_of(r) if CW.SHADOW else r)) for r in REAL_DEFS]
 MSG._msg_defs = standins.LinearDict(None, DEFS) if CW.SHADOW else dict(DEFS)
 
 
+import socket as _sock
+_WAITALL = _sock.MSG_WAITALL
+
+
 class Desync(Exception):
     pass
 
@@ -46,10 +50,14 @@ class ScriptSock:
         self.filled = []
         self.closed = False
 
-    def _take(self, n):
-        """number of bytes a MSG_WAITALL read of n bytes yields at the current position"""
+    def _take(self, n, flags=_WAITALL):
+        """number of bytes a read of n bytes yields at the current position.  With MSG_WAITALL: n, or fewer only if the
+        connection ends first.  Without it a read returns as soon as SOME bytes are there: the peer's bytes arrive in pieces of
+        `chunk` bytes (shard, default 1), so such a read yields at most that many."""
         if n < 0:
             raise ValueError("negative buffersize in recv")
+        if not (flags & _WAITALL) and n > sh("chunk", 1):
+            n = sh("chunk", 1)
         avail = self.cut - self.pos
         if avail < 0:
             avail = 0
@@ -62,7 +70,9 @@ class ScriptSock:
             raise ConnectionResetError(104, "Connection reset by peer")
         return avail
 
-    def recv_into(self, buf, n, flags=0):
+    def recv_into(self, buf, n=0, flags=0):
+        if n == 0:
+            n = len(buf)
         if _is_header(buf):
             k = None
             for j in range(len(self.starts)):
@@ -70,18 +80,19 @@ class ScriptSock:
                     k = j
             if k is None and self.pos != self.end and self.cut - self.pos > 0:
                 raise Desync("header read at offset %s, which is not a frame boundary" % (self.pos,))
-            got = self._take(n)
-            if got == n:
+            want = n
+            got = self._take(n, flags)
+            if got == want:
                 mt, nb, ver = self.frames[k]
                 _fill_header(buf, mt, nb, ver, k)
             return got
         start = self.pos
-        got = self._take(n)
+        got = self._take(n, flags)
         self.filled.append((buf, start, got))
         return got
 
     def recv(self, n, flags=0):
-        got = self._take(n)
+        got = self._take(n, flags)
         return b"\x00" * got if not CW.SHADOW else _Blob(got)
 
     def close(self):
